@@ -348,7 +348,7 @@ where
       let t := c.outTx
       if t.resContentEncodingProcessing == 1 then
         let c := c.modTx uid (fun t => { t with resEntityLen := t.resEntityLen + gapLen })
-        let r := (if t.txResBodyHook then runCallback .txResponseBodyData (some uid) none false c gapLen else (c, .ok)) >>? fun c =>
+        let r := runCallbackN t.txResBodyHook .txResponseBodyData (some uid) none false gapLen c >>? fun c =>
           runCallback .responseBodyData (some uid) none false c gapLen
         if r.2 != .ok then (r.1, .error) else r
       else ({ c with unsupported := true }, .ok)
@@ -537,17 +537,21 @@ def resDriverLoop (isGap : Bool) : Nat → Conn → Conn × Nat
       else ({ c with out := { c.out with status := STREAM_ERROR } }, STREAM_ERROR)
 
 /-- htp_connp_res_data -/
-def resData (data : Option Bytes) (len : Nat) (c : Conn) : Conn × Nat :=
+def resDataCore (data : Option Bytes) (len : Nat) (c : Conn) : Conn × Nat :=
   if c.out.status == STREAM_STOP then (c, STREAM_STOP) else
   if c.out.status == STREAM_ERROR then (c, STREAM_ERROR) else
   if c.out.tx.isNone && c.outState != .idle then
     ({ c with out := { c.out with status := STREAM_ERROR } }, STREAM_ERROR) else
   if len == 0 && c.out.status != STREAM_CLOSED then (c, STREAM_CLOSED) else
   let c := { c with out := { c.out with cur := data.getD [], curNull := data.isNone, len := len, read := 0, consume := 0,
-                                        receiver := 0 },
+                                        receiver := 0, live := true },
                     outDataCounter := c.outDataCounter + len }
   if c.out.status == STREAM_TUNNEL then (c, STREAM_TUNNEL) else
   resDriverLoop cfg (data.isNone && len > 0) (8 * len + 64) c
+
+def resData (data : Option Bytes) (len : Nat) (c : Conn) : Conn × Nat :=
+  let (c, rc) := resDataCore cfg data len c
+  ({ c with out := { c.out with live := false } }, rc)
 
 /-! ### connection-level entry points (htp_connection_parser.c) -/
 
